@@ -119,6 +119,10 @@ def compare(ctx, sessions, base, other, k, rerun=None):
         if a is None or b is None:
             ctx.inconclusive("missing_digest")
             continue
+        if a.get("unstable") or b.get("unstable"):
+            # a solver query hit the harness's z3 timeout in one of the processes
+            ctx.inconclusive("z3_timeout_in_session")
+            continue
         ctx.stat("evaluations")
         kind = classify(a, b)
         if kind is None:
